@@ -26,6 +26,8 @@ def payloads(tier):
     big = [dict(n=4, size=300000, container=c, compression=comp) for c in ('array', 'annotated-list') for comp in (None, 'gzip')]
     big += [dict(n=3, size=300000, container='list', compression=None, preexisting=True)]
     if tier == 'thorough':
+        small += [dict(n=n, size=12, container=c, compression=comp, preexisting=pre)
+                  for n in (1, 3, 5) for c in ('array', 'list', 'annotated-array', 'annotated-list') for comp in (None, 'gzip', 'lzf') for pre in (False, True)]
         small += [dict(n=6, size=25, container=c, compression='lzf') for c in ('array', 'list')]
         big += [dict(n=5, size=260000, container='list', compression=None), dict(n=3, size=800000, container='annotated-array', compression=None)]
     return small, big
